@@ -50,7 +50,7 @@ func init() {
 		MustHit:    []string{"strategy=random-walk", "strategy=pct", "strategy=round-robin-fine", "preemption", "two_first_signers", "op=Metadata", "op=RetrieveAssertionInfo", "second_instance", "non_default_algorithm", "sp_without_clock", "op=SignLogoutResponse(held)"},
 		RandomRuns: map[string]int{"quick": 600, "thorough": 12000},
 		Assumptions: []string{"data-race freedom is shown for the executed schedules of the generated workloads",
-			"channels, sync.Cond and WaitGroup.Wait inside the library are not modelled (a watchdog turns a task that never yields into a harness error)",
+			"channel operations, select, x.Wait() statements and go statements of the library are modelled; blocking inside uninstrumented dependencies is not (a watchdog turns a task that never yields into a harness error, exit 2)",
 			"the certificate getters return the configured slice itself, which is configuration, not a result (not scribbled)"},
 		Stub: []string{"IdP (issuer)", "clock (frozen during the concurrent phase)", "entropy source (per-task streams)", "key and certificate stores (stateless)", "goroutine scheduler (seeded, cooperative over instrumented yield points)"},
 	})
